@@ -43,6 +43,10 @@ def _case(draw):
     bounded = draw(st.sampled_from(["logit", "probit", None]))
     lo = [draw(st.sampled_from([0.0, -1.0, -3.5, 2.0, 10.0])) for _ in range(d)]
     w = [draw(st.sampled_from([1.0, 2.0, 6.283185307179586, 0.5, 20.0])) for _ in range(d)]
+    if draw(st.integers(0, 5)) == 0:
+        # a parameter measured in tiny or huge units: the whole box is far narrower / wider than any absolute constant
+        j = draw(st.integers(0, d - 1))
+        lo[j], w[j] = draw(st.sampled_from([(1e-6, 4e-6), (0.0, 3e-5), (-2e4, 5e4)]))
     comps = draw(st.integers(1, 2))
     centers = [[draw(st.sampled_from([0.5, 0.3, 0.8, 0.05, 0.95, 0.5])) for _ in range(d)] for _ in range(comps)]
     width = draw(st.sampled_from(["float32", "float64", "float64"]))
@@ -328,6 +332,7 @@ def run_case(case, ctx):
     try:
         p = os.path.join(d_, "f.h5")
         with AspireFile(p, "w") as h:
+            flow.save(h, "flow0")  # the object is saved more than once in its life (fit, then sampling, write the flow)
             flow.save(h, "flow")
         with AspireFile(p, "r") as h:
             r = type(flow).load(h, "flow")
